@@ -44,6 +44,7 @@ func c04Judge(w *fw.W, c *c04Case) bool {
 	}
 	defer sl.CloseWAF(long)
 	var exp *sl.Result
+	modelBlind := false
 	if c.NoModel {
 		f, err := sl.BuildText(c.Text)
 		if err != nil {
@@ -57,13 +58,28 @@ func c04Judge(w *fw.W, c *c04Case) bool {
 	} else {
 		exp = sl.Run(c.Program, c.Req)
 		if exp.Ambiguous != "" {
-			// the outcome legitimately depends on visiting order (or the model cannot decide): not judged
-			w.Count("ambiguous_skipped", 1)
-			w.Cover("ambiguous_reasons", exp.Ambiguous)
-			return true
+			if exp.OrderDependent() {
+				// the outcome legitimately depends on the visiting order of a multi-valued collection: not judged
+				w.Count("ambiguous_skipped", 1)
+				w.Cover("ambiguous_reasons", exp.Ambiguous)
+				return true
+			}
+			// the model cannot predict the outcome (unpinned construct), but whatever the outcome is, it has to be
+			// the same in every repetition: the first run on a fresh WAF becomes the reference. Counters and
+			// captures the model could not follow are left out of the comparison.
+			f, err := sl.BuildText(c.Text)
+			if err != nil {
+				return false
+			}
+			first := sl.Exec(f, c.Req)
+			sl.CloseWAF(f)
+			r := first.Result
+			exp = &r
+			modelBlind = true
+			w.Count("pairs_model_blind_judged_by_self_differential", 1)
 		}
 	}
-	opts := sl.CompareOpts{TX: true}
+	opts := sl.CompareOpts{TX: !modelBlind}
 	orders := map[string]int{}
 	outcomes := map[string]int{}
 	var firstBad *sl.ExecResult
@@ -115,6 +131,8 @@ func c04Judge(w *fw.W, c *c04Case) bool {
 		class := "outcome-varies-between-repetitions:" + sl.DiffKind(firstDiff)
 		if c.NoModel {
 			class = "outcome-differs-from-fresh-waf:" + sl.DiffKind(firstDiff)
+		} else if modelBlind {
+			class = "outcome-varies-between-repetitions:model-blind:" + sl.DiffKind(firstDiff)
 		} else if good == 0 {
 			class = "outcome-differs-from-model-in-every-repetition:" + sl.DiffKind(firstDiff)
 		}
@@ -148,7 +166,7 @@ func init() {
 		ID: "C04", Level: "exploration",
 		Rule: "rule sets from three generators (matching core, lists sharing transformation prefixes, counters/thresholds) x requests with names repeated within and across collections (2-8 keys per collection) are each executed N times, alternating a long-lived WAF (with unrelated disturber transactions in between) and a freshly built one; a fourth population uses a fully steerable configuration rich in ctl/skip/allow state with the first fresh-WAF run as reference; every repetition's order-independent outcome (interruption, ordered fired ids, per-rule match-data multisets, counters) must equal the reference outcome, i.e. all repetitions agree. The runtime's per-iteration map order is the adversary and is measured: the order in which match data arrived is recorded per repetition. Non-trivial: the pair showed at least two different arrival orders; distinct by (rule-set text, request).",
 		Assumptions: []string{"observables that legitimately depend on which value of a multi-valued collection is visited first/last (captures, %{MATCHED_VAR} assignments after several matches, messages) are identified by the reference model and not compared; cases whose control flow depends on them are skipped and counted"},
-		Required:    []string{"pairs_with_varying_iteration_order", "pairs", "disturber_transactions", "pairs_judged_against_fresh_waf_reference"},
+		Required:    []string{"case_variant_pairs", "pairs_with_varying_iteration_order", "pairs", "disturber_transactions", "pairs_judged_against_fresh_waf_reference"},
 		Plan: func(tier fw.Tier, seed int64) []fw.Batch {
 			n := 16
 			if tier == fw.Thorough {
@@ -179,6 +197,18 @@ func init() {
 				}
 				var p *sl.Program
 				var mk func() *sl.Req
+				if i%5 == 4 {
+					p, mk = gen.CaseVariantProgram(w.Rng), func() *sl.Req { return gen.CaseVariantRequest(w.Rng) }
+					text := p.Render()
+					for j := 0; j < reqs; j++ {
+						c := &c04Case{Program: p, Text: text, Req: mk(), Reps: reps, Disturbers: []*sl.Req{mk()}}
+						if !c04Judge(w, c) {
+							break
+						}
+					}
+					w.Count("case_variant_pairs", reqs)
+					continue
+				}
 				switch i % 3 {
 				case 0:
 					p, mk = gen.MatchProgram(w.Rng), func() *sl.Req { return gen.Request(w.Rng) }
